@@ -139,7 +139,7 @@ func blockStarts(d []byte) []int {
 	return out
 }
 
-func mutate(r *gen.Rng, bases []baseTable, bi int) (data []byte, kind string) {
+func mutate(r *gen.Rng, bases []baseTable, bi int, forceKind int) (data []byte, kind string) {
 	src := bases[bi].data
 	d := append([]byte(nil), src...)
 	hs := hdrSize(d)
@@ -148,7 +148,10 @@ func mutate(r *gen.Rng, bases []baseTable, bi int) (data []byte, kind string) {
 		fsz = 72
 	}
 	body := len(d) - fsz
-	k := r.Intn(21)
+	k := r.Intn(18) // kinds 18..20 (log-plaintext) come as EXTRA mutants of every batch, see runC18Batch
+	if forceKind >= 0 {
+		k = forceKind
+	}
 	repair := r.Chance(0.7)
 	switch k {
 	case 0:
@@ -810,9 +813,21 @@ func runC18Batch(c *Ctx, self string, bases []baseTable, bi, batch int) {
 		Companion []int      `json:"companion"`
 	}
 	written := map[int]bool{}
-	for i := 0; i < batch; i++ {
-		b := rng.Intn(len(bases))
-		data, kind := mutate(rng, bases, b)
+	// the last `extra` mutants of a batch are log-plaintext mutants drawn from their own
+	// PRNG stream, so that the stream of the other kinds is what it was before they existed
+	extra := batch / 6
+	xrng := gen.NewRng(gen.Mix(c.Seed^0xc18c, int64(bi)))
+	for i := 0; i < batch+extra; i++ {
+		var b int
+		var data []byte
+		var kind string
+		if i < batch {
+			b = rng.Intn(len(bases))
+			data, kind = mutate(rng, bases, b, -1)
+		} else {
+			b = xrng.Intn(len(bases))
+			data, kind = mutate(xrng, bases, b, 18)
+		}
 		os.WriteFile(filepath.Join(dir, fmt.Sprintf("m-%d.bin", i)), data, 0644)
 		infos = append(infos, mi{b, kind, rep.HashBytes(data)})
 		meta.Names = append(meta.Names, bases[b].names)
@@ -827,7 +842,7 @@ func runC18Batch(c *Ctx, self string, bases []baseTable, bi, batch int) {
 		}
 		meta.Companion = append(meta.Companion, comp)
 	}
-	meta.N = batch
+	meta.N = batch + extra
 	mb, _ := json.Marshal(meta)
 	os.WriteFile(filepath.Join(dir, "meta.json"), mb, 0644)
 
@@ -848,7 +863,7 @@ func runC18Batch(c *Ctx, self string, bases []baseTable, bi, batch int) {
 	}
 
 	from := 0
-	for from < batch {
+	for from < batch+extra {
 		cmd := exec.Command(self, "-prop", "C18child", "-out", dir, "-work", dir)
 		cmd.Env = append(os.Environ(), "VERIF_C18_BATCH="+dir, fmt.Sprintf("VERIF_C18_FROM=%d", from), "GOMAXPROCS=1", "GOMEMLIMIT=3GiB")
 		outF, _ := os.Create(filepath.Join(dir, "child.out"))
